@@ -243,6 +243,40 @@ def run(ctx):
                 exp.append("".join(COMP[x] for x in reversed(t)) if (stranded and s == "-") else t)
             ctx.check("sequence[intervals]", got == exp, "GenomicSequence[intervals]/%s" % ("stranded" if stranded else "unstranded"), "sequence under intervals gave %r expected %r" % (got[:4], exp[:4]),
                       dict(wit, stranded=stranded, sequences=seqs, got=got[:8], expected=exp[:8]), nt and (nt, "seq", stranded))
+        # the same through an indexed FASTA on disk whose record order differs from the genome order
+        # ('_' contigs, ignored by Genome.from_file, sit between the others; sort_names reorders the rest)
+        def fasta_route():
+            import os
+            order = list(names)
+            r.shuffle(order)
+            path = ctx.path("g.fa")
+            with open(path, "w") as f:
+                for nm in order:
+                    f.write(">%s\n" % nm)
+                    w = r.choice([3, 7, 60])
+                    for i in range(0, len(seqs[nm]), w):
+                        f.write(seqs[nm][i:i + w] + "\n")
+            sort_names = r.random() < 0.5
+            gf = bnp.Genome.from_file(path, sort_names=sort_names)
+            gorder = list(gf.get_genome_context().chrom_sizes)
+            q = [(x, s) for x, s in zip(ivs, strands) if x[0] in gorder]
+            q.sort(key=lambda t: (gorder.index(t[0][0]), t[0][1], t[0][2]))
+            if not q:
+                return
+            qi = [x for x, _ in q]
+            qs = [s_ for _, s_ in q]
+            res = gf.read_sequence()[gf.get_intervals(tbl(qi, qs), stranded=True)]
+            got = [t.upper() for t in text_rows(res)]
+            exp = []
+            for (c, a, b), s_ in zip(qi, qs):
+                t = seqs[c][a:b]
+                exp.append("".join(COMP[x] for x in reversed(t)) if s_ == "-" else t)
+            ctx.check("sequence[intervals]", got == exp, "GenomicSequence[intervals]/indexed-fasta:file-order-differs-from-genome-order", "indexed-FASTA sequence under intervals gave %r expected %r (file order %r, genome order %r)" % (got[:4], exp[:4], order, gorder),
+                      dict(wit, file_order=order, genome_order=gorder, got=got[:8], expected=exp[:8]), nt and (nt, "fasta", tuple(order), sort_names))
+            for pth in (path, path + ".fai"):
+                if os.path.exists(pth):
+                    os.remove(pth)
+        guard("GenomicSequence[intervals]/indexed-fasta", fasta_route)
         # metamorphic independence: replace the entries of every chromosome but c
         if len(names) >= 2:
             c = r.choice(names)
